@@ -546,3 +546,76 @@ Proof.
   intros envs fsets H f name u Hf. apply arb_named_valid.
   exact (proj1 (forallb_forall _ _) H f Hf).
 Qed.
+
+(* ---------------------------------------------------------------- the request enumerations *)
+Definition variant_ok (v : string * list ty) : bool :=
+  match snd v with
+  | [] => true
+  | [TNamed n] => String.eqb n "operation::VendorOperation" || smem n arb_types
+  | _ => false
+  end.
+
+Lemma pick_variant_fine {A} : forall (variants : list (string * A)) u, variants <> [] -> bytes_ok u = true ->
+  fine (fun va => In va variants) u (pick_variant variants u).
+Proof.
+  intros variants u Hne Hb. unfold pick_variant.
+  assert (Hlen : 0 < blen variants) by (destruct variants; [contradiction|unfold blen; cbn [List.length]; lia]).
+  destruct (arb_variant (blen variants) u) as [ix u1] eqn:E.
+  destruct (arb_variant_bound _ u ix u1 Hlen Hb E) as [Hix S].
+  destruct (nth_error_some_lt variants ix Hix) as [va Hn]. rewrite Hn. cbn [fine]. split; [|exact S].
+  eapply nth_error_In; exact Hn.
+Qed.
+
+Lemma smem_true_in : forall s l, smem s l = true -> In s l.
+Proof.
+  intros s l H. unfold smem in H. apply existsb_exists in H. destruct H as [x [Hx E]]. apply String.eqb_eq in E. subst. exact Hx.
+Qed.
+
+(* CTAP2: a declared variant; its payload is absent, a byte (vendor code), or a valid value of the variant's request type *)
+Theorem arb_ctap2_request_valid : forall e variants u, all_genable_k e type_fuel = true ->
+  variants <> [] -> forallb variant_ok variants = true -> bytes_ok u = true ->
+  match arb_ctap2_request e variants u with
+  | AOk (name, v) u' =>
+      (exists ts, In (name, ts) variants /\
+        (ts = [] /\ v = VUnit \/
+         (exists c, v = VZ c /\ 0 <= c < 256) \/
+         (exists n, ts = [TNamed n] /\ within e type_fuel (TNamed n) v = true))) /\ bytes_ok u' = true
+  | ANotEnough => True
+  | APanic _ => False
+  end.
+Proof.
+  intros e variants u HG Hne Hok Hb. unfold arb_ctap2_request.
+  pose proof (pick_variant_fine variants u Hne Hb) as P.
+  destruct (pick_variant variants u) as [[name ts] u1| |s]; cbn [abind fine] in *; try exact P.
+  destruct P as [Hin S1]. assert (Hb1 : bytes_ok u1 = true) by (eapply bytes_ok_sub; eassumption).
+  pose proof (proj1 (forallb_forall _ _) Hok _ Hin) as V. unfold variant_ok in V. cbn [fst snd] in *.
+  destruct ts as [|t [|t2 ts]]; [|destruct t; try discriminate|destruct t; discriminate].
+  - split; [exists []; split; [exact Hin|left; split; reflexivity]|exact Hb1].
+  - match goal with |- context [String.eqb ?nm "operation::VendorOperation"] => rename nm into n end.
+    destruct (String.eqb n "operation::VendorOperation") eqn:EV.
+    + destruct (arb_u8 u1) as [c u2] eqn:E8. destruct (fill_bound 1 u1 c u2 Hb1 E8) as [B S2].
+      change (256 ^ Z.of_nat 1) with 256 in B.
+      split; [exists [TNamed n]; split; [exact Hin|right; left; exists c; split; [reflexivity|lia]]|eapply bytes_ok_sub; eassumption].
+    + cbn [orb] in V. apply smem_true_in in V.
+      pose proof (arb_named_valid e n u1 HG V Hb1) as W.
+      destruct (arb_ty e type_fuel (TNamed n) u1) as [v u2| |s]; cbn [abind] in *; try exact W.
+      destruct W as [Wv Wb]. split; [exists [TNamed n]; split; [exact Hin|right; right; exists n; split; [reflexivity|exact Wv]]|exact Wb].
+Qed.
+
+Lemma arb_ctap2_family_valid : forall (envs : feats -> env) (fsets : list feats) variants,
+  forallb (fun f => all_genable_k (envs f) type_fuel) fsets = true ->
+  variants <> [] -> forallb variant_ok variants = true ->
+  forall f u, In f fsets -> bytes_ok u = true ->
+  match arb_ctap2_request (envs f) variants u with
+  | AOk (name, v) u' =>
+      (exists ts, In (name, ts) variants /\
+        (ts = [] /\ v = VUnit \/
+         (exists c, v = VZ c /\ 0 <= c < 256) \/
+         (exists n, ts = [TNamed n] /\ within (envs f) type_fuel (TNamed n) v = true))) /\ bytes_ok u' = true
+  | ANotEnough => True
+  | APanic _ => False
+  end.
+Proof.
+  intros envs fsets variants H Hne Hok f u Hf Hb.
+  apply arb_ctap2_request_valid; try assumption. exact (proj1 (forallb_forall _ _) H f Hf).
+Qed.
